@@ -227,6 +227,8 @@ func report(o *Options, res *runResult, smtDir string, wall time.Duration) int {
 		case "discharged", "cover-ok", "cover-unknown":
 		case "cover-failed":
 			engineErrors = append(engineErrors, key+": vacuous hypotheses")
+		case "malformed":
+			engineErrors = append(engineErrors, key+": ill-formed query (generator error): "+trunc(ob.Output, 200))
 		case "failed":
 			if k := isKnown(ob.Unit, ob.Name); k != nil {
 				ob.Known = k.What
